@@ -4,7 +4,14 @@ Sub-checks
     index    exhaustive: every multi-index of every (q, d) with q*d <= 12 (thorough 16) through both index maps
     convert  generated TT-tensors of shape [2^q]*d -> tt_to_qtt -> qtt_to_tt / get_many, accuracy, ranks, caps
     merge    generated QTT-tensors -> qtt_to_tt, entries at the binary expansion (all four functions together)
-    reject   non-power-of-two mode sizes => ValueError (ind_tt_to_qtt, core_tt_to_qtt, tt_to_qtt, optima_qtt)
+    reject   non-power-of-two mode sizes => ValueError (ind_tt_to_qtt, core_tt_to_qtt, tt_to_qtt, optima_qtt), fresh process
+    walk     the whole index-map enumeration of every (q, d) inside ONE case, in descending / zigzag / strided / there-and-
+             back (q, d) orders, with the rejection of the sizes next to 2^q after every visit (state kept by the library
+             for one quantisation level, dimension or batch size must not leak into another)
+    history  drawn call sequences inside ONE case: valid calls with the neighbouring powers of two first (all four
+             functions, drawn order), then drawn valid / invalid steps, then invalid -> valid for every function; every
+             step is judged by a state-independent oracle (ValueError for an invalid size, exact bits / shape, ranks and
+             accuracy for a valid one) and an identical valid call repeated later must give the same result
 
 Tolerance model of `convert` (derivation)
     core_tt_to_qtt factorises q matrices per core with matrix_svd (eigen-decomposition of B B^T or B^T B).  Each
@@ -47,16 +54,26 @@ RULE = ("index: exhaustive enumeration of all 2^(q*d) multi-indices for every (q
         "families), accuracy e (0, default, tiny/big relative to the core norms, absolute) and cap r (default, "
         "non-binding, binding, fractional); oracle = own dense chain and own bit regrouping. merge: random QTT-tensors. "
         "reject: random non-power-of-two mode sizes 3..40(300), d 2..3 (and the d = 1 spellings). Non-trivial = q >= 2 and "
-        "d >= 2 (index, convert, merge), every case of reject; distinct by SHA-1 of the case.")
+        "d >= 2 (index, convert, merge), every case of reject; distinct by SHA-1 of the case. walk: 16 (thorough 32) fixed "
+        "visiting orders of all (q, d) with q*d <= 12 (16): descending, zigzag, there-and-back, arithmetic strides; every visit "
+        "enumerates all 2^(q*d) multi-indices in batch, a strided sample in the single spellings, and the invalid sizes "
+        "2^q - 1, 2^q + 1, 2^(q+1) - 1, 3*2^(q-1), 3*2^q. history: q 1..4(6), d 2..3, sizes from {2^(q-1), 2^q, 2^(q+1)} and the "
+        "non-powers of two in (2^(q-1), 2^(q+2)); 4 functions x 4 argument spellings x 2 data variants per step; "
+        "non-trivial = some invalid step follows a valid step (every case, by construction).")
 TOLERANCES = ("index maps: exact. consistency QTT vs qtt_to_tt(QTT): 2*32*(dq+sum r+2)*eps*E(|cores|) elementwise (== for "
               "small-integer cores). accuracy per core: 1.001*(sqrt(q)*e + q*4*S*sqrt(eps)*||G||_F) in regime T (e >= 100x that floor), "
               "1.001*(sqrt(q)*e + q*64*S*eps*||G||_F) in regime L (well-conditioned core, nothing cut), S = n*max(r1,r2) "
-              "(see module docstring), tensor: prod(||G_k||+b_k) - prod||G_k|| in Frobenius norm; none when the cap may bind")
+              "(see module docstring), tensor: prod(||G_k||+b_k) - prod||G_k|| in Frobenius norm; none when the cap may bind. "
+              "history: the same bounds per step; a repeated identical valid call: index maps ==, conversions within the sum of "
+              "the two accuracy bounds (no bit-for-bit claim on floats); optima_qtt: returned values vs own dense entry within "
+              "2*K*eps*E(|cores|)")
 ASSUMPTIONS = ["TT side d >= 1 is evaluated with the harness' own dense chain; teneva.get_many is only called on tensors with >= 2 cores",
                "q >= 1 (mode size 1 = 2^0 is outside the quantifier)",
                "cap r >= 1 and accuracy e >= 0",
                "accuracy is claimed only in regimes T/L of the module docstring and only if int(r) >= every structural rank; "
                "other cases are counted under the label accuracy_not_claimed / cap_may_bind",
+               "history: Gaussian cores of O(1) magnitude, ranks <= 3, optima_qtt only with d >= 2; of optima_qtt only the shape of "
+               "the result, the index ranges and value == entry at the returned index are asserted (optimality is C15)",
                "NumPy/LAPACK reference arithmetic is correct"]
 
 SQ = math.sqrt(EPS)
@@ -530,9 +547,335 @@ def prop_reject(case, ctx):
     ctx.raises(ValueError, teneva.optima_qtt, Ym)
 
 
+# ------------------------------------------------------------------------------------------- shared: rejection in any state
+
+def is_pow2(n):
+    return n >= 1 and n & (n - 1) == 0
+
+
+def reject_ind(ctx, n, d, sp, rows):
+    """ind_tt_to_qtt must reject the non-power-of-two size n whatever was called before; rows = in-range multi-indices."""
+    if sp == 0:
+        ctx.raises(ValueError, teneva.ind_tt_to_qtt, np.array(rows, dtype=int), n)
+    elif sp == 1:
+        ctx.raises(ValueError, teneva.ind_tt_to_qtt, [list(map(int, v)) for v in rows], n)
+    elif sp == 2:
+        ctx.raises(ValueError, teneva.ind_tt_to_qtt, np.array(rows[0], dtype=int), n)
+    else:
+        ctx.raises(ValueError, teneva.ind_tt_to_qtt, [int(rows[0][0])], n)                 # d = 1
+
+
+# ------------------------------------------------------------------------------------------- index maps, visiting orders
+
+def walk_pairs(lim):
+    return [(q, d) for q in range(1, lim + 1) for d in range(1, lim // q + 1)]
+
+
+def walk_orders(tier):
+    lim = 12 if tier == "quick" else 16
+    P = walk_pairs(lim)
+    L = len(P)
+    desc = sorted(P, key=lambda p: (-p[0], -p[1]))
+    out = [("desc_q_desc_d", desc),
+           ("desc_q_asc_d", sorted(P, key=lambda p: (-p[0], p[1]))),
+           ("asc_q_desc_d", sorted(P, key=lambda p: (p[0], -p[1]))),
+           ("desc_bits", sorted(P, key=lambda p: (-p[0] * p[1], -p[0]))),
+           ("desc_d", sorted(P, key=lambda p: (-p[1], -p[0])))]
+    zig = []
+    for j in range((L + 1) // 2):
+        zig.append(desc[j])
+        if L - 1 - j != j:
+            zig.append(desc[L - 1 - j])
+    out.append(("zigzag", zig))
+    out.append(("zigzag_rev", zig[::-1]))
+    out.append(("there_and_back", desc + desc[::-1][1:] + desc[1:]))
+    strides = [a for a in (3, 5, 7, 11, 13, 17, 19, 23, 29, 31, 37, 41) if math.gcd(a, L) == 1][:8]
+    for a in strides:
+        out.append((f"stride{a}", [desc[(a * j + a) % L] for j in range(L)]))
+    if tier != "quick":
+        out = out + [(name + "_rev", order[::-1]) for name, order in out]
+    return lim, out
+
+
+def walk_cases(tier, shard, nshards):
+    lim, orders = walk_orders(tier)
+    for j, (name, order) in enumerate(orders):
+        if j % nshards == shard:
+            yield {"name": name, "lim": lim, "order": [list(p) for p in order], "phase": j}
+
+
+def prop_walk(case, ctx):
+    order, phase = case["order"], case["phase"]
+    ctx.label("order:" + case["name"])
+    ctx.nontrivial(True)
+    total = 0
+    for visit, (q, d) in enumerate(order):
+        n = 2 ** q
+        I = all_indices(q, d)
+        m = I.shape[0]
+        total += m
+        B = own_bits(I, q)
+        where = dict(q=q, d=d, visit=visit, order=case["name"], before=order[max(0, visit - 3):visit])
+        if (visit + phase) % 2 == 0:                                  # which map is called first alternates
+            got = ctx.lib(teneva.ind_tt_to_qtt, I.copy(), n)
+            back = ctx.lib(teneva.ind_qtt_to_tt, B.copy(), q)
+        else:
+            back = ctx.lib(teneva.ind_qtt_to_tt, B.copy(), q)
+            got = ctx.lib(teneva.ind_tt_to_qtt, I.copy(), n)
+        ctx.check(is_int_array(got, (m, d * q)), "ind_tt_to_qtt(batch): not an integer ndarray of shape [samples, d*q]",
+                  shape=getattr(got, "shape", None), dtype=str(getattr(got, "dtype", None)), **where)
+        ctx.check(bool(np.all(got == B)), "ind_tt_to_qtt(batch) differs from shift/mask bits after calls with other (q, d)",
+                  first_bad=_first_bad(got, B, I, got), **where)
+        ctx.check(is_int_array(back, (m, d)), "ind_qtt_to_tt(batch): not an integer ndarray of shape [samples, d]",
+                  shape=getattr(back, "shape", None), **where)
+        ctx.check(bool(np.all(back == I)), "ind_qtt_to_tt(bits) is not sum b_j 2^j after calls with other (q, d)",
+                  first_bad=_first_bad(back, I, I, B), **where)
+        rt = ctx.lib(teneva.ind_qtt_to_tt, got, q)
+        ctx.check(is_int_array(rt, (m, d)) and bool(np.all(rt == I)), "ind_qtt_to_tt(ind_tt_to_qtt(I)) != I", **where)
+        # the other spellings on a sample that moves with the visit number: list of lists, batch of one, single
+        k = min(m, 48)
+        lo = (visit * 37 + phase * 11) % (m - k + 1)
+        gl = ctx.lib(teneva.ind_tt_to_qtt, I[lo:lo + k].tolist(), n)
+        ctx.check(is_int_array(gl, (k, d * q)) and bool(np.all(gl == B[lo:lo + k])), "ind_tt_to_qtt(list of lists) differs from shift/mask bits", **where)
+        bl = ctx.lib(teneva.ind_qtt_to_tt, B[lo:lo + k].tolist(), q)
+        ctx.check(is_int_array(bl, (k, d)) and bool(np.all(bl == I[lo:lo + k])), "ind_qtt_to_tt(list of lists) is not sum b_j 2^j", **where)
+        step = max(1, m // 12)
+        for t in sorted({0, m - 1} | set(range((visit + phase) % step, m, step))):
+            as_list = (t + visit) % 2 == 1
+            s1 = ctx.lib(teneva.ind_tt_to_qtt, [int(v) for v in I[t]] if as_list else I[t].copy(), n)
+            ctx.check(is_int_array(s1, (d * q,)) and bool(np.all(s1 == B[t])), "ind_tt_to_qtt(single index) differs from shift/mask bits",
+                      i=I[t], got=s1, ref=B[t], **where)
+            s2 = ctx.lib(teneva.ind_qtt_to_tt, [int(v) for v in B[t]] if as_list else B[t].copy(), q)
+            ctx.check(is_int_array(s2, (d,)) and bool(np.all(s2 == I[t])), "ind_qtt_to_tt(single index) is not sum b_j 2^j",
+                      bits=B[t], got=s2, ref=I[t], **where)
+            g1 = ctx.lib(teneva.ind_tt_to_qtt, I[t:t + 1].copy(), n)
+            ctx.check(is_int_array(g1, (1, d * q)) and bool(np.all(g1 == B[t:t + 1])), "ind_tt_to_qtt(batch of one) is not of shape [1, d*q]", **where)
+        # the sizes next to 2^q (same or neighbouring floor(log2)) are still rejected now that 2^q has been served
+        for bad in sorted({n - 1, n + 1, 2 * n - 1, 3 * n // 2, 3 * n}):
+            if bad >= 3 and not is_pow2(bad):
+                rows = [[0] * d, [bad - 1] * d, [min(bad, n) - 1] * d]
+                try:
+                    reject_ind(ctx, bad, d, (visit + bad) % 4, rows[(visit + phase) % 3:] + rows[:(visit + phase) % 3])
+                except harness.core.OracleFailure as exc:
+                    raise harness.core.OracleFailure(f"n={bad} after the valid size {n} was served: {exc.args[0]}", where)
+    ctx.inner(total - 1)
+
+
+# ------------------------------------------------------------------------------------------- histories of calls
+
+H_FUNCS = ("ind", "core", "tt", "optima")
+
+
+def hist_sizes(tier):
+    return dict(q_max=4, bits=13, body=8) if tier == "quick" else dict(q_max=6, bits=15, body=14)
+
+
+def hist_pools(q):
+    good = [2 ** j for j in (q - 1, q, q + 1) if j >= 1]
+    bad = [v for v in range(max(3, 2 ** (q - 1) + 1), 2 ** (q + 2)) if not is_pow2(v)]
+    same = [v for v in bad if 2 ** q < v < 2 ** (q + 1)]            # same floor(log2) as the valid size 2^q
+    return good, bad, same
+
+
+@st.composite
+def history_cases(draw, tier):
+    sz = hist_sizes(tier)
+    q = draw(st.integers(1, sz["q_max"]))
+    d = draw(st.integers(2, max(2, min(3, sz["bits"] // (q + 1)))))
+    good, bad, same = hist_pools(q)
+    r = [1] + [draw(st.integers(1, 3)) for _ in range(d - 1)] + [1]
+    sp = st.integers(0, 3)
+    var = st.integers(0, 1)
+    bad_n = st.one_of(st.sampled_from(same), st.sampled_from(bad))
+    funcs = draw(st.lists(st.sampled_from(H_FUNCS), min_size=1, max_size=4, unique=True)) if draw(st.integers(0, 3)) == 0 else list(H_FUNCS)
+    warm = draw(st.permutations([(f, n) for f in funcs for n in good[-2:]]))
+    steps = [[f, n, draw(sp), draw(var)] for f, n in warm]
+    for _ in range(draw(st.integers(2, sz["body"]))):
+        f = draw(st.sampled_from(H_FUNCS))
+        n = draw(bad_n) if draw(st.booleans()) else draw(st.sampled_from(good))
+        steps.append([f, n, draw(sp), draw(var)])
+    for f in draw(st.permutations(H_FUNCS)):                         # invalid -> valid once more, for every function
+        steps.append([f, draw(bad_n), draw(sp), draw(var)])
+        steps.append([f, draw(st.sampled_from(good)), draw(sp), draw(var)])
+    return {"q": q, "d": d, "r": r, "seed": draw(gen.seeds), "steps": steps}
+
+
+def hist_data(case, n, var, store):
+    """Inputs of a step depend on (seed, n, variant) only, not on the position of the step in the history."""
+    key = (n, var)
+    if key not in store:
+        d, r = case["d"], case["r"]
+        rng = np.random.default_rng([case["seed"], n, var])
+        Y = [rng.normal(size=(r[k], n, r[k + 1])) for k in range(d)]
+        I = rng.integers(0, n, size=(3, d))
+        if n >= 4:
+            I[1, :] = n - 1 - (I[1, :] % (n // 2))                   # a row in the upper half of the range (>= 2^floor(log2 n))
+            I[2, :] = I[2, :] % (n // 2)                             # a row in the lower half
+        good = 2 ** case["q"]
+        mixed = [good] * d
+        mixed[(case["seed"] + var) % d] = n
+        Ym = [rng.normal(size=(r[k], mixed[k], r[k + 1])) for k in range(d)]
+        store[key] = (Y, I, Ym)
+    return store[key]
+
+
+def check_core_call(ctx, G, q, args, what):
+    """core_tt_to_qtt(G, *args) -> (merged core, accuracy bound or None); shape, rank chain, cap, accuracy."""
+    e, r = (0.0, 1.E+12) if not args else args
+    Q = ctx.lib(teneva.core_tt_to_qtt, G.copy(), *args)
+    ctx.check(isinstance(Q, list) and len(Q) == q and all(isinstance(c, np.ndarray) and c.ndim == 3 and c.shape[1] == 2 for c in Q),
+              f"{what}: not a list of q cores with mode size 2", got=[getattr(c, "shape", None) for c in Q] if isinstance(Q, list) else None)
+    ctx.check(Q[0].shape[0] == G.shape[0] and Q[-1].shape[2] == G.shape[2] and all(Q[j].shape[2] == Q[j + 1].shape[0] for j in range(q - 1)),
+              f"{what}: ranks do not chain from r1 to r2", got=[c.shape for c in Q], core=G.shape)
+    ctx.check(all(np.all(np.isfinite(c)) for c in Q), f"{what}: non-finite entries")
+    ctx.check(all(Q[j].shape[2] <= max(1, int(r)) for j in range(q - 1)), f"{what}: bond created inside the mode exceeds the rank cap",
+              got=[c.shape for c in Q], cap=r)
+    H = ctx.lib(teneva.core_qtt_to_tt, Q)
+    ctx.check(isinstance(H, np.ndarray) and H.shape == G.shape, f"{what}: core_qtt_to_tt of the result has not the shape of G",
+              got=getattr(H, "shape", None), ref=G.shape)
+    reg, b, gmax = core_model(G, q, e)
+    if reg is None or int(r) < gmax:
+        return H, None
+    err = fro(H - G)
+    ctx.check(err <= b, f"{what}: core_qtt_to_tt(core_tt_to_qtt(G)) differs from G beyond sqrt(q)*e + q*floor",
+              err=err, bound=b, e=e, r=r, norm=fro(G), shape=G.shape, regime=reg)
+    return H, b
+
+
+def check_tt_call(ctx, Y, Z, q, e, r, what):
+    """Z = tt_to_qtt(Y, e, r) -> (dense of Z in TT layout, Frobenius bound or None); form, ranks, cap, accuracy."""
+    d = len(Y)
+    ctx.check(isinstance(Z, list) and len(Z) == q * d, f"{what}: not a list of d*q cores", got=len(Z) if isinstance(Z, list) else type(Z).__name__)
+    check_qtt_form(ctx, Z, q, d, ranks_of(Y), r, what)
+    DZ = group(dense(Z), q, d)
+    models = [core_model(G, q, e) for G in Y]
+    if int(r) < max(mm[2] for mm in models) or any(mm[0] is None for mm in models):
+        return DZ, None
+    norms = [fro(G) for G in Y]
+    tol = product_bound(norms, [mm[1] for mm in models]) * (1 + 1e-9) + fro(oracle.tol_dense(Y)) + fro(oracle.tol_dense(Z))
+    err = fro(DZ - dense(Y))
+    ctx.check(err <= tol, f"{what}: the QTT-tensor does not denote Y at the binary expansions within the requested accuracy",
+              err=err, tol=tol, e=e, r=r, regimes=[mm[0] for mm in models])
+    return DZ, tol
+
+
+def prop_history(case, ctx):
+    q0, d, steps = case["q"], case["d"], case["steps"]
+    store, seen = {}, {}
+    served = {f: set() for f in H_FUNCS}          # floor(log2 n) of the valid sizes a function has handled so far
+    n_bad = n_bad_same = n_repeat = n_acc = n_noacc = 0
+    ctx.label(f"q={q0}", f"d={d}")
+    ctx.nontrivial(True)
+    ctx.inner(len(steps) - 1)
+    for t, (f, n, sp, var) in enumerate(steps):
+        Y, I, Ym = hist_data(case, n, var, store)
+        q = n.bit_length() - 1
+        what = f"step {t} {f}(n={n}, spelling {sp}) after {[(s[0], s[1]) for s in steps[max(0, t - 4):t]]}"
+        if not is_pow2(n):
+            n_bad += 1
+            n_bad_same += q in served[f]
+            try:
+                _history_reject(ctx, f, n, sp, d, Y, I, Ym)
+            except harness.core.OracleFailure as exc:
+                raise harness.core.OracleFailure(f"{what}: {exc.args[0]}", {"steps_so_far": steps[:t + 1], "served": sorted(served[f])})
+            continue
+        served[f].add(q)
+        key = (f, n, sp, var)
+        if f == "ind":
+            rows = I if sp < 2 else (I[0] if sp == 2 else I[0, :1])
+            arg = rows.copy() if sp in (0, 2) else rows.tolist()
+            ref = own_bits(np.atleast_2d(rows), q)
+            ref = ref if sp < 2 else ref[0]
+            got = ctx.lib(teneva.ind_tt_to_qtt, arg, n)
+            ctx.check(is_int_array(got, ref.shape) and bool(np.all(got == ref)), f"{what}: ind_tt_to_qtt differs from shift/mask bits",
+                      I=rows, got=got, ref=ref)
+            back = ctx.lib(teneva.ind_qtt_to_tt, got.copy() if sp in (0, 2) else got.tolist(), q)
+            ctx.check(is_int_array(back, np.shape(rows)) and bool(np.all(back == rows)), f"{what}: ind_qtt_to_tt(ind_tt_to_qtt(I)) != I",
+                      I=rows, got=back)
+            res, tol = got, 0
+        elif f == "core":
+            G = Y[sp % d]
+            H, tol = check_core_call(ctx, G, q, () if sp < 2 else (1.E-6, 3), what)
+            res = H
+        elif f == "tt":
+            if sp == 3:
+                Yd = [Y[0][:, :, :1]]                                                        # d = 1
+                res, tol = check_tt_call(ctx, Yd, ctx.lib(teneva.tt_to_qtt, [G.copy() for G in Yd]), q, 1.E-12, 100, what)
+            else:
+                args, e, r = [((), 1.E-12, 100), ((1.E-6, 3), 1.E-6, 3), ((1.E-10,), 1.E-10, 100)][sp]
+                Z = ctx.lib(teneva.tt_to_qtt, [G.copy() for G in Y], *args)
+                res, tol = check_tt_call(ctx, Y, Z, q, e, r, what)
+                # entries of the QTT-tensor at the binary expansion (one more index-map call inside the history)
+                Bt = ctx.lib(teneva.ind_tt_to_qtt, I.copy(), n)
+                ctx.check(is_int_array(Bt, (len(I), q * d)) and bool(np.all(Bt == own_bits(I, q))), f"{what}: ind_tt_to_qtt differs from shift/mask bits")
+                if tol is not None and len(Z) >= 2:
+                    vals = np.asarray(ctx.lib(teneva.get_many, Z, Bt), dtype=float)
+                    refv = dense(Y)[tuple(I.T)]
+                    ctx.check(vals.shape == refv.shape and bool(np.all(np.abs(vals - refv) <= tol)),
+                              f"{what}: entries of tt_to_qtt(Y) at the binary expansions differ from the entries of Y", got=vals, ref=refv, tol=tol)
+        else:
+            args = [(), (3, 1.E-6, 5), (2,), (100, 1.E-12, 100)][sp]
+            out = ctx.lib(teneva.optima_qtt, [G.copy() for G in Y], *args)
+            ctx.check(isinstance(out, tuple) and len(out) == 4, f"{what}: optima_qtt did not return a 4-tuple")
+            F = dense(Y)
+            tolF = 2 * oracle.tol_dense(Y, extra=2)
+            for i, y, name in ((out[0], out[1], "min"), (out[2], out[3], "max")):
+                ctx.check(is_int_array(i, (d,)) and bool(np.all((i >= 0) & (i < n))), f"{what}: optima_qtt i_{name} is not a multi-index of Y", got=i)
+                at = tuple(int(v) for v in i)
+                ctx.check(np.ndim(y) == 0 and abs(float(y) - F[at]) <= tolF[at], f"{what}: optima_qtt y_{name} is not the entry of Y at i_{name}",
+                          i=i, y=y, entry=F[at], tol=tolF[at])
+            res, tol = None, None
+        n_acc += tol is not None and f != "ind"
+        n_noacc += tol is None and f in ("core", "tt")
+        # an identical valid call made earlier in this history gave the same answer
+        if key in seen and res is not None:
+            n_repeat += 1
+            old, old_tol = seen[key]
+            if f == "ind":
+                ctx.check(bool(np.array_equal(old, res)), f"{what}: the result of an identical earlier call differs", before=old, now=res)
+            elif tol is not None and old_tol is not None:
+                ctx.check(old.shape == res.shape and fro(old - res) <= tol + old_tol,
+                          f"{what}: the result of an identical earlier call denotes a different tensor", diff=fro(old - res), tol=tol + old_tol)
+        if res is not None:
+            seen[key] = (res, tol)
+    ctx.label("invalid_steps>=4" if n_bad >= 4 else "invalid_steps<4",
+              "invalid_after_valid_same_level" if n_bad_same else "no_invalid_after_valid_same_level",
+              "repeated_valid_call" if n_repeat else "no_repeated_valid_call",
+              "conversion_accuracy_claimed" if n_acc else "no_conversion_accuracy_claimed",
+              "some_conversion_without_accuracy_claim" if n_noacc else "every_conversion_with_accuracy_claim")
+
+
+def _history_reject(ctx, f, n, sp, d, Y, I, Ym):
+    if f == "ind":
+        reject_ind(ctx, n, d, sp, I[sp % 3:].tolist() + I[:sp % 3].tolist())
+    elif f == "core":
+        if sp < 2:
+            ctx.raises(ValueError, teneva.core_tt_to_qtt, Y[sp % d].copy())
+        else:
+            ctx.raises(ValueError, teneva.core_tt_to_qtt, Y[sp % d].copy(), 1.E-6, 3)
+    elif f == "tt":
+        if sp == 0:
+            ctx.raises(ValueError, teneva.tt_to_qtt, [G.copy() for G in Y])
+        elif sp == 1:
+            ctx.raises(ValueError, teneva.tt_to_qtt, [G.copy() for G in Y], 1.E-6, 3)
+        elif sp == 2:
+            ctx.raises(ValueError, teneva.tt_to_qtt, [G.copy() for G in Ym])                 # one bad mode among good ones
+        else:
+            ctx.raises(ValueError, teneva.tt_to_qtt, [Y[0][:, :, :1].copy()])                 # d = 1
+    else:
+        if sp == 0:
+            ctx.raises(ValueError, teneva.optima_qtt, [G.copy() for G in Y])
+        elif sp == 1:
+            ctx.raises(ValueError, teneva.optima_qtt, [G.copy() for G in Y], 3, 1.E-6, 5)
+        else:
+            ctx.raises(ValueError, teneva.optima_qtt, [G.copy() for G in Ym])
+
+
 SUBCHECKS = [
     Sub("index", prop_index, enumerate=index_blocks, exhaustive=True),
     Sub("convert", prop_convert, strategy=convert_cases, quick=400, thorough=4000),
     Sub("merge", prop_merge, strategy=merge_cases, quick=200, thorough=2500),
     Sub("reject", prop_reject, strategy=reject_cases, quick=40, thorough=300),
+    Sub("walk", prop_walk, enumerate=walk_cases),
+    Sub("history", prop_history, strategy=history_cases, quick=40, thorough=600),
 ]
